@@ -8,7 +8,7 @@ import numpy as np
 from hypothesis import strategies as st
 
 from vf.core import Discard, Violation, require
-from vf.observe import InjectedFault, MSG_ITER, run_min, snapshot_state, states_equal
+from vf.observe import InjectedFault, MSG_ITER, continuation_is_well_conditioned, run_min, snapshot_state, states_equal
 from vf.runspec import run_spec
 from vf.specs import ALL_FAMILIES, build
 from vf.props.c06 import check_next, restart
@@ -109,7 +109,9 @@ def check(spec, stats=None):
         if rs.exc is not None:
             raise Violation("restart-from-callback-state", f"restart from the state of iteration {kk} raised {type(rs.exc).__name__}: {rs.exc}")
         if ref0.res["message"] == MSG_ITER and ref0.res["nit"] == kk:
-            check_next(ref0.res, ref1.res, rs.res, "after-crash", ref1 if mode == "callable" else None, rs if mode == "callable" else None, stats)
+            check_next(ref0.res, ref1.res, rs.res, "after-crash", ref1 if mode == "callable" else None, rs if mode == "callable" else None, stats,
+                       probe=lambda tol: continuation_is_well_conditioned(
+                           lambda c: run_min(prob, c_rs, checkpoint=c, x0=np.array(kept["live"].x, copy=True), jac_mode=mode), kept["live"], rs.res["x"], tol))
             # when the continuation cost exactly as many objective evaluations as in the uninterrupted run it went
             # through the same steps, so it computed the same number of gradients: njev must have resumed from the
             # state's njev (with differenced gradients nfev and njev differ, so a mix-up of the two shows here)
@@ -168,7 +170,8 @@ def check_tight_budget(spec, stats=None):
     if rs.exc is not None:
         raise Violation("restart-from-callback-state", f"restart raised {type(rs.exc).__name__}: {rs.exc}")
     if ref0.res["nit"] == k:
-        check_next(ref0.res, ref1.res, rs.res, "after-crash-tight-budget", ref1, rs, stats)
+        check_next(ref0.res, ref1.res, rs.res, "after-crash-tight-budget", ref1, rs, stats,
+                   probe=lambda tol: continuation_is_well_conditioned(lambda c: restart(prob, cfg2, c, k + 1), kept["live"], rs.res["x"], tol))
     if stats is not None:
         used = ref1.res["nfev"] - ref0.res["nfev"]
         binding = used >= spec["delta"]
